@@ -291,7 +291,8 @@ def global_vars_of(case, cfgdir='<cfgdir>'):
 # ---- tasks ---------------------------------------------------------------------------------------------
 
 EXT = {'dict': 'json', 'list': 'json', 'str': 'json', 'int': 'json', 'numpy': 'npy', 'frame': 'pd',
-       'generator': 'jsonl', 'lazy': 'jsonl', 'gen_empty': 'jsonl', 'list_numpy': None, 'dir': None, 'memory': None, 'continues': None}
+       'generator': 'jsonl', 'lazy': 'jsonl', 'gen_empty': 'jsonl', 'list_numpy': None, 'dir': None, 'memory': None, 'continues': None,
+       'figure': 'pickle'}
 
 
 class MTask:
